@@ -100,6 +100,12 @@ add(Gram("p4", Level([
     Pos("req", strict="strict"),
 ]), short_args="b", note="strict required positional"))
 
+add(Gram("p6", Level([
+    Pos("opt", strict="strict"),
+    Pos("req"),
+]), note="strict optional positional followed by an unrestricted required one"))
+C01_GRAMMARS.append("p6") if "C01_GRAMMARS" in globals() else None
+
 add(Gram("p5", Level([
     Pos("req"),
     Pos("many"),
@@ -127,7 +133,7 @@ add(Gram("c3", Level([
     Cmds([Cmd(["add"], _c1_add)], optional=True),
 ]), short_flags="vn", note="optional subcommand"))
 
-C01_GRAMMARS = ["g1", "g2", "g3", "p1", "p2", "p3", "p4", "p5", "c1", "c2", "c3"]
+C01_GRAMMARS = ["g1", "g2", "g3", "p1", "p2", "p3", "p4", "p5", "p6", "c1", "c2", "c3"]
 
 
 add(Gram("v1", Level([
